@@ -4,6 +4,7 @@
 use crate::util::{Rng, Stats};
 
 pub mod chan;
+pub mod deliver;
 pub mod life;
 pub mod param;
 pub mod storage;
@@ -19,6 +20,7 @@ pub fn gen(suite: &str, rng: &mut Rng, n: usize, thorough: bool, stats: &mut Sta
 		"units" => units::gen(rng, n, thorough, stats),
 		"param" => param::gen(rng, n, thorough, stats),
 		"chan" => chan::gen(rng, n, thorough, stats),
+		"deliver" => deliver::gen(rng, n, thorough, stats),
 		"life" => life::gen(rng, n, thorough, stats),
 		"storage" => storage::gen(rng, n, thorough, stats),
 		_ => panic!("unknown suite {}", suite),
@@ -30,6 +32,7 @@ pub fn run(suite: &str, ops: &[String]) -> Vec<String> {
 		"units" => units::run(ops),
 		"param" => param::run(ops),
 		"chan" => chan::run(ops),
+		"deliver" => deliver::run(ops),
 		"life" => life::run(ops),
 		"storage" => storage::run(ops),
 		_ => panic!("unknown suite {}", suite),
